@@ -18,6 +18,7 @@ package jsonparser
 //@     updateafter idparsed = idparsed + ((arg2 == 31) ? 0 : 1)
 //@   onstore ID
 //@     requires idparsed == 1 && *value == idres [C09.dec.id.full.uint64.range]
+//@   loop 4 invariant k >= start && k < end && end < len(data) && start >= 0
 //@   ensures maxmake() <= max(old(maxmake()), len(data) + 2) [C10.hdr.alloc]
 //@   ensures err == nil ==> header != nil && header.Attachments >= 0 [C10.hdr.att]
 //@   ensures err == nil && header.Type != 5 && header.Type != 6 ==> header.Attachments == 0 [C10.hdr.att.nonbinary]
